@@ -25,10 +25,12 @@ FORBIDDEN_IN_PHASES = {'wideEntryGuard', 'wideExitGuard', 'wideEnter', 'wideExit
                        'processTransitions', 'initialEnter', 'finalExit'}
 
 
-def apex_calls(c):
+def apex_calls(c, F=None):
     def sel(n):
         if n.kind != 'call':
             return False
+        if F is not None and n.e.get('fn') is not None and F.fn(n.e['fn']) is not None:
+            return F.fn(n.e['fn']).tkey == 'ffsm2::detail::C_'       # resolved callee: a member of the composite (the apex)
         o = n.e.get('obj')
         o = ir.strip(o) if ir.is_expr(o) else None
         return o is not None and o['k'] == 'mem' and o['f'] == '_apex'
@@ -196,12 +198,12 @@ def check_query(run, F, E):
         run.ob('C05.d', 'R_::query is a const member function [%s]' % (F.cfg or 'none'), fn.is_const(), where=fn.pat,
                key='R_::query is not const')
         ws = E.writes_with_locals(fn)
-        allowed = {('local:control', '_originId')}
-        extra = sorted(p for p in ws if p not in allowed and p[0] != 'temp')
+        # the only write a query may reach: the origin id of the *local* control object it hands down (whatever that local is called)
+        extra = sorted(p for p in ws if not (str(p[0]).startswith('local:') and p[-1] == '_originId' and len(p) == 2) and p[0] != 'temp')
         run.ob('C05.d', 'R_::query reaches no write of machine state [%s]' % (F.cfg or 'none'), not extra, where=fn.pat,
                detail=extra[:4] or None, key='R_::query can modify the machine')
         c = cfgmod.cfg_of(fn)
-        calls, uncond, ordered = apex_calls(c)
+        calls, uncond, ordered = apex_calls(c, F)
         ok = [n.e.get('m') for n in calls] == ['deepQuery'] and uncond
         run.ob('C05.a', 'R_::query delivers deepQuery once [%s]' % (F.cfg or 'none'), ok, where=fn.pat, key='R_::query does not deliver query exactly once')
         for n in calls:
